@@ -56,10 +56,19 @@ func genC17(rng *rand.Rand, n int, emit func(Case), dist map[string]int) {
 		e := echo.New()
 		switch comp {
 		case 0:
-			e.Pre(middleware.AddTrailingSlashWithConfig(middleware.TrailingSlashConfig{RedirectCode: code}))
+			cfg := middleware.TrailingSlashConfig{RedirectCode: code}
+			if code == 302 || code == 308 {
+				// a skipper that looks at a query parameter first (and never skips): the query string must still be preserved as sent
+				cfg.Skipper = func(c echo.Context) bool { return c.QueryParam("no-redirect") == "never-sent" }
+			}
+			e.Pre(middleware.AddTrailingSlashWithConfig(cfg))
 			e.Any("/*", ok200)
 		case 1:
-			e.Pre(middleware.RemoveTrailingSlashWithConfig(middleware.TrailingSlashConfig{RedirectCode: code}))
+			cfg := middleware.TrailingSlashConfig{RedirectCode: code}
+			if code == 302 || code == 308 {
+				cfg.Skipper = func(c echo.Context) bool { return c.QueryParam("no-redirect") == "never-sent" }
+			}
+			e.Pre(middleware.RemoveTrailingSlashWithConfig(cfg))
 			e.Any("/*", ok200)
 		case 4: // forwarding (no redirect code), default constructors
 			e.Pre(middleware.AddTrailingSlash())
@@ -79,7 +88,7 @@ func genC17(rng *rand.Rand, n int, emit func(Case), dist map[string]int) {
 	engines := map[[2]int]*echo.Echo{}
 	pieces := []string{"/", "/", "\\", "\t", "\n", "\r", "\x01", "\x0b", " ", "\x7f", "%2f", "%5c", "%09", "%0a", "%0d", "%2F", "%5C", "%00", "%20", ".", "a"}
 	hosts := []string{"example.com", "evil.org", "sub", "sub/deep", "x", "example.com/..", "a.b", "@evil.com", "example.com%2f.."}
-	queries := []string{"", "", "a=b", "next=//evil.com", "x=%09", "?", "a=b&c=d", "\\"}
+	queries := []string{"", "", "a=b", "next=//evil.com", "x=%09", "?", "a=b&c=d", "\\", "sort=name&page=2", "q=a%20b&b=1", "z=1&a=2"}
 	for it := 0; it < n; it++ {
 		comp := rng.Intn(4)
 		if rng.Intn(6) == 0 {
